@@ -981,10 +981,21 @@ def descriptor_order(ck, F, rule="GRID-GUARD"):
     b = ck.need(F.one, "model::Model::delete_columns")
     P = Program(F)
     names = {b.local_name(i): i for i in range(1, b.nargs + 1)}
-    cs = [l for l in range(len(b.locals)) if b.local_name(l) == "column_start"]
-    mn = [l for l in range(len(b.locals)) if b.local_name(l) == "min"]
+    # first deleted column: the `column` parameter (any local copy of it is equal to it in the zone state);
+    # a descriptor's start: every local that is a copy of a `Col.min` field read through a reference to a stored descriptor
+    cs = [names["column"]] if "column" in names else []
+    mn = []
+    for bi, si, st in b.stmts():
+        if place_proj(st["p"]) or st["rv"]["k"] != "use":
+            continue
+        src = op_place(st["rv"]["o"])
+        if src is None or not place_proj(src):
+            continue
+        pj = place_proj(b.resolve_place(src, through_named=True))
+        if pj and pj[-1][0] == "f" and (pj[-1][3], pj[-1][2]) == (COL, "min") and any(e[0] == "*" for e in pj):
+            mn.append(st["p"]["l"])
     ck.ob(rule, "delete_columns|anchors", "column_count" in names and len(cs) == 1 and len(mn) >= 1,
-          "delete_columns: column_count / column_start / min not found", b.file, b.line)
+          "delete_columns: column_count / column / a copy of Col.min not found", b.file, b.line)
     if "column_count" not in names or len(cs) != 1 or not mn:
         return
     cs_t = "_%d" % cs[0]
@@ -1118,8 +1129,17 @@ def axis_flags(ck, F, rule="FULL-RANGE"):
     DD = "ironcalc_base::expressions::parser::stringify::DisplaceData"
     b = ck.need(F.one, "stringify::stringify_reference")
     names = {b.local_name(i): i for i in range(1, b.nargs + 1)}
-    rowl = [l for l in range(len(b.locals)) if b.local_name(l) == "row" and l > b.nargs]
-    coll = [l for l in range(len(b.locals)) if b.local_name(l) == "column" and l > b.nargs]
+    # the row / column being printed: the re-assigned locals computed from Reference.row / Reference.column (by
+    # provenance, whatever they are called)
+    rowl, coll = [], []
+    for l in range(b.nargs + 1, len(b.locals)):
+        if not b.local_name(l) or len(b.defs().get(l, [])) < 2 or b.locals[l] != "i32":
+            continue
+        fl = {x[2] for x in sources(b, {"c": {"l": l}}) if x[0] == "field" and x[1].endswith("::Reference")}
+        if fl == {"row"}:
+            rowl.append(l)
+        elif fl == {"column"}:
+            coll.append(l)
     sws = enum_switches(b, DD)
     if not sws or "full_row" not in names or not rowl or not coll:
         ck.ob(rule, "stringify_reference|axis anchors", False, "DisplaceData match / flags / row, column locals not found", b.file, b.line)
@@ -1212,9 +1232,10 @@ def cut_skip_same_sheet(ck, F, rule="SPILL"):
     are coordinates *on the target sheet*: in UserModel::paste_from_clipboard every membership test against `seen_cells`
     is dominated by the `source_sheet == sheet` comparison."""
     b = ck.need(F.one, "UserModel::paste_from_clipboard")
-    names = {b.local_name(l): l for l in range(len(b.locals)) if b.local_name(l)}
-    seen = names.get("seen_cells")
-    ck.ob(rule, "paste_from_clipboard|seen_cells", seen is not None, "local `seen_cells` not found (anchor lost?)", b.file, b.line)
+    # the set of paste-target coordinates: the one HashSet<(i32, i32)> local of the function
+    cand = [l for l in range(b.nargs + 1, len(b.locals)) if b.local_name(l) and b.locals[l].replace(" ", "").startswith("std::collections::HashSet<(i32,i32)")]
+    seen = cand[0] if len(cand) == 1 else None
+    ck.ob(rule, "paste_from_clipboard|seen_cells", seen is not None, "the set of paste targets (a HashSet<(i32, i32)> local) was not found (anchor lost?)", b.file, b.line)
     if seen is None:
         return
     # edges on which source_sheet == sheet holds
